@@ -1,5 +1,124 @@
+import OpusModel.Ext
 import Driver.Util
-/- Suite stub — replaced by the owner of this suite. -/
+/- Suite `ext`: src/extensions.c — iterator, count, count_ext, parse, parse_ext, generate.
+
+   ext scan <nb_frames> x<padding>
+        → cnt=… cx=…:c0,c1,… p=… ps=… px=… it=…      (all readers on the same bytes)
+   ext iter <nb_frames> x<padding> <op,op,…>       ops: n | r | m<frame_max> | f<id>
+        → one token per op: E<id.frame.off.len> | D | X | -
+   ext gen <dry> <len> <nb_frames> <pad> <ext,ext,…>   ext = id:frame:len:x<data>
+        → OK <ret> x<bytes> | error name                                                  -/
 namespace Driver.SuiteExt
-def handle (_ : List String) : String := "bad-op"
+open Opus Opus.Ext Driver
+
+def refStr (e : ExtRef) : String := s!"{e.id}.{e.frame}.{e.off}.{e.len}"
+
+def refsStr (l : List ExtRef) : String :=
+  if l.isEmpty then "-" else ";".intercalate (l.map refStr)
+
+def orefsStr (l : List (Option ExtRef)) : String :=
+  if l.isEmpty then "-" else ";".intercalate (l.map fun | some e => refStr e | none => "?")
+
+def stepStr : Step → String
+  | .ext e => "E" ++ refStr e
+  | .done => "D"
+  | .invalid => "X"
+
+/-- Plain iteration with `opus_extension_iterator_next` until it returns `<= 0`. -/
+def iterAll (it : Iter) (acc : Array ExtRef) : Res (Array ExtRef × Step) :=
+  match h : next it with
+  | .ok (it', .ext e) => iterAll it' (acc.push e)
+  | .ok (_, s) => .ok (acc, s)
+  | .err e => .err e
+  | .oob => .oob
+  | .abort => .abort
+termination_by it.mu
+decreasing_by exact next_decreases h
+
+def doScan (nbf : Int) (d : Bytes) : String :=
+  let len : Int := d.length
+  let cnt := count d len nbf
+  let cx := countExt d len nbf
+  let cntS := resStr toString cnt
+  let cxS := resStr (fun (p : Nat × List Nat) => s!"{p.1}:{if p.2.isEmpty then "-" else natList p.2}") cx
+  let n : Int := match cnt with | .ok n => n | _ => 0
+  let p := resStr refsStr (parse d len n nbf)
+  let ps := if n > 0 then resStr refsStr (parse d len (n - 1) nbf) else "-"
+  let px := match cx with
+    | .ok (_, fc) => resStr orefsStr (parseExt d len n (fc.map Int.ofNat) nbf)
+    | _ => "-"
+  let pxs := match cx with
+    | .ok (_, fc) => if n > 0 then resStr orefsStr (parseExt d len (n - 1) (fc.map Int.ofNat) nbf) else "-"
+    | _ => "-"
+  let itS := match iterInit d len nbf with
+    | .ok it => resStr (fun (p : Array ExtRef × Step) => s!"{refsStr p.1.toList}|{stepStr p.2}") (iterAll it #[])
+    | .err e => errStr e
+    | .oob => "OOB"
+    | .abort => "ABORT"
+  s!"cnt={cntS} cx={cxS} p={p} ps={ps} px={px} pxs={pxs} it={itS}"
+
+def doIterOps : Iter → List String → List String → Option (List String)
+  | _, [], acc => some acc.reverse
+  | it, op :: ops, acc =>
+    if op = "n" then
+      match next it with
+      | .ok (it', s) => doIterOps it' ops (stepStr s :: acc)
+      | .err e => some (("ERR:" ++ errStr e) :: acc).reverse
+      | .oob => some ("OOB" :: acc).reverse
+      | .abort => some ("ABORT" :: acc).reverse
+    else if op = "r" then doIterOps (iterReset it) ops ("-" :: acc)
+    else if op.startsWith "m" then
+      match (op.drop 1).toString.toInt? with
+      | some k => doIterOps (iterSetFrameMax it k) ops ("-" :: acc)
+      | none => none
+    else if op.startsWith "f" then
+      match (op.drop 1).toString.toInt? with
+      | some k =>
+        match find it k with
+        | .ok (it', s) => doIterOps it' ops (stepStr s :: acc)
+        | .err e => some (("ERR:" ++ errStr e) :: acc).reverse
+        | .oob => some ("OOB" :: acc).reverse
+        | .abort => some ("ABORT" :: acc).reverse
+      | none => none
+    else none
+
+def parseExtSpec (s : String) : Option Ext :=
+  match s.splitOn ":" with
+  | [id, fr, len, hex] =>
+    match id.toInt?, fr.toInt?, len.toInt?, parseHex hex with
+    | some id, some fr, some len, some bs => some { id := id, frame := fr, data := bs, len := len }
+    | _, _, _, _ => none
+  | _ => none
+
+def parseExtList (s : String) : Option (Array Ext) :=
+  if s = "-" then some #[] else ((s.splitOn ",").mapM parseExtSpec).map List.toArray
+
+def handle : List String → String
+  | ["scan", nbf, hex] =>
+    match parseInt nbf, parseHex hex with
+    | some nbf, some d => doScan nbf d
+    | _, _ => "bad-op"
+  | ["iter", nbf, hex, ops] =>
+    match parseInt nbf, parseHex hex with
+    | some nbf, some d =>
+      match iterInit d d.length nbf with
+      | .ok it =>
+        match doIterOps it (ops.splitOn ",") [] with
+        | some l => s!"n={l.length} " ++ " ".intercalate l
+        | none => "bad-op"
+      | .err e => errStr e
+      | .oob => "OOB"
+      | .abort => "ABORT"
+    | _, _ => "bad-op"
+  | ["gen", dry, len, nbf, pad, exts] =>
+    match parseNat dry, parseInt len, parseInt nbf, parseNat pad, parseExtList exts with
+    | some dry, some len, some nbf, some pad, some exts =>
+      match generate (dry != 0) len exts nbf (pad != 0) with
+      | .ok out => s!"OK {out.size} {if dry != 0 then "x" else toHex out.toList}"
+      | .err e => errStr e
+      | .oob => "OOB"
+      | .abort => "ABORT"
+    | _, _, _, _, _ => "bad-op"
+  | _ => "bad-op"
+
 end Driver.SuiteExt
